@@ -2,7 +2,9 @@ package main
 
 import (
 	"bytes"
+	"encoding/binary"
 	"fmt"
+	"io"
 	"strings"
 
 	"github.com/keybase/saltpack"
@@ -208,6 +210,115 @@ func init() {
 		return
 	}}
 
+	// operation sequences on the streaming signers (Writes, Close, and further Write/Close calls
+	// after Close): every string the signing key is asked to sign must be a domain-separation
+	// string followed by a SHA-512 digest of material that STARTS WITH THE HASH OF THE HEADER
+	// THIS STREAM EMITTED (the header carries the fresh nonce)
+	evaluators["trace_stream"] = evaluator{run: func(h *H, c Case) (fs []Failure) {
+		log := &keyLog{}
+		key := recSigner{sigSecretFromBytes(unhx(c.A["sk"])), log}
+		ops := strings.Split(c.A["ops"], ",")
+		v := parseVersion(c.A["v"])
+		var out bytes.Buffer
+		var written [][]byte // concatenation of the Write payloads after each Write
+		var cur []byte
+		type call struct{ nWrites int }
+		var calls []call
+		withRand(unhx(c.A["rng"]), func() {
+			guard(func() error {
+				var w io.WriteCloser
+				var err error
+				if c.A["kind"] == "att" {
+					w, err = saltpack.NewSignStream(v, &out, key)
+				} else {
+					w, err = saltpack.NewSignDetachedStream(v, &out, key)
+				}
+				if err != nil {
+					return nil
+				}
+				for _, op := range ops {
+					before := len(log.events)
+					if op == "C" {
+						w.Close()
+					} else {
+						p := unhx(op[1:])
+						w.Write(p)
+						cur = append(append([]byte{}, cur...), p...)
+						written = append(written, cur)
+					}
+					for i := before; i < len(log.events); i++ {
+						calls = append(calls, call{len(written)})
+					}
+				}
+				return nil
+			})
+		})
+		for len(calls) < len(log.events) { // events of an operation that panicked
+			calls = append(calls, call{len(written)})
+		}
+		if len(log.events) == 0 {
+			return
+		}
+		objs, _ := splitObjects(out.Bytes())
+		if len(objs) == 0 {
+			return append(fs, Failure{Kind: "oracle", Key: "trace-stream-no-header", Desc: "the signing key was used but no header was emitted"})
+		}
+		hn, _, err := mpParse(objs[0])
+		if err != nil {
+			return append(fs, Failure{Kind: "oracle", Key: "trace-stream-no-header", Desc: "emitted header does not parse"})
+		}
+		hh := sha(hn.Bytes)
+		for i, e := range log.events {
+			p := strings.Split(e, ":")
+			m := unhx(p[2])
+			ok := false
+			var cands [][]byte
+			cands = append(cands, nil)
+			for j := 0; j < calls[i].nWrites; j++ {
+				cands = append(cands, written[j])
+			}
+			if c.A["kind"] == "det" {
+				for _, w := range cands {
+					if bytes.Equal(m, append([]byte("saltpack detached signature\x00"), sha(hh, w)...)) {
+						ok = true
+					}
+				}
+			} else {
+				for seq := 0; seq <= len(log.events) && !ok; seq++ {
+					var sq [8]byte
+					binary.BigEndian.PutUint64(sq[:], uint64(seq))
+					for _, w := range cands {
+						for _, fb := range [][]byte{nil, {0}, {1}} {
+							if (v.Major == 1) != (fb == nil) {
+								continue
+							}
+							// the data written between any two Write boundaries (earlier blocks were signed before)
+							starts := []int{0}
+							for j := 0; j < calls[i].nWrites; j++ {
+								if len(written[j]) <= len(w) {
+									starts = append(starts, len(written[j]))
+								}
+							}
+							for _, st := range starts {
+								if bytes.Equal(m, append([]byte("saltpack attached signature\x00"), sha(hh, sq[:], fb, w[st:])...)) {
+									ok = true
+								}
+							}
+						}
+					}
+				}
+			}
+			if !ok {
+				fs = append(fs, Failure{Kind: "oracle", Key: "signed-input-not-bound-to-header", Desc: fmt.Sprintf("Sign call %d of the %s stream (ops %s): the signed digest is not over the hash of the header this stream emitted followed by data written so far", i+1, c.A["kind"], clip(c.A["ops"], 60))})
+				break
+			}
+		}
+		if bad := tracePredicate(log.events); bad != "" {
+			fs = append(fs, Failure{Kind: "oracle", Key: "long-term-key-abused", Desc: bad})
+		}
+		return
+	}}
+
 	campaigns["C12"] = campaign{
 		rule: "cases: the harness supplies BoxSecretKey / BoxPrecomputedSharedKey / SigningSecretKey wrappers that record every call (operation, peer, nonce, message). Receivers: genuine, mutated, spliced and insider-forged encryption and signcryption messages (as C02/C04) opened with recording keyrings of 1-3 keys, visible and hidden recipients; senders: Sign/SignDetached/SigncryptSeal/Seal with recording long-term keys, all versions, lengths 0..3000 and 1 MiB+1. The recorded call sequence must equal the model's trace (coq/model/KeyTrace.v) and satisfy the predicate directly: every Unbox nonce is the V1 constant or 'saltpack_recipsb'+index, every Box message is 32 zero bytes, every signed string is a domain-separation string plus fixed-length hash material.",
 		gen: func(h *H) {
@@ -272,6 +383,17 @@ func init() {
 					}
 				}
 				h.Run(Case{Op: "trace_send", A: map[string]string{"kind": "sc", "sk": hx(h.randSigKey()), "pieces": blist([][]byte{h.rng.Bytes(l)}), "rng": hx(sealRng(h.rng, 1)), "expect_calls": "1"}})
+			}
+			// operation sequences on the streaming signers, including calls after Close
+			a, b, cc := hx(h.rng.Bytes(1+h.rng.Intn(40))), hx(h.rng.Bytes(64+h.rng.Intn(40))), hx(h.rng.Bytes(1+h.rng.Intn(10)))
+			for _, ops := range []string{"C", "C,C", "W" + a + ",C", "W" + a + ",C,C", "W" + a + ",C,W" + b + ",C", "C,W" + b + ",C",
+				"W" + a + ",W" + cc + ",C,W" + b + ",C,C", "W" + a + ",C,W" + b + ",W" + cc + ",C"} {
+				for _, v := range []string{"1.0", "2.0"} {
+					for _, kind := range []string{"att", "det"} {
+						h.tag("opseq")
+						h.Run(Case{Op: "trace_stream", A: map[string]string{"kind": kind, "v": v, "sk": hx(h.randSigKey()), "ops": ops, "rng": hx(h.rng.Bytes(16))}})
+					}
+				}
 			}
 		},
 	}
